@@ -5,7 +5,7 @@ import random, json, itertools
 from common import guarded, Timeout
 
 TERMS = {'A': '"a"', 'B': '"b"', 'C': '"c"', '_U': '"u"'}
-LITS = ['"x"', '"y"']
+LITS = ['"x"', '"y"', '"a"']      # "a": an anonymous (filtered) use of the terminal A — helper rules must not be shared with A's
 
 
 def gen_expr(rng, names, depth=0):
